@@ -264,6 +264,8 @@ def install_field(I):
         x = a[0]
         if isinstance(x, int):
             return Poly.const(x)
+        if isinstance(x, BitInt):
+            return x.to_poly()
         if isinstance(x, Term) and x.op == "as_int" and len(x.args) == 1 and isinstance(x.args[0], Poly):
             return x.args[0]        # Felt::new(f.as_int()) = f
         name = "felt[%r]" % (x,)
